@@ -66,16 +66,26 @@ def rule_operator_chain(ctx):
                 t[tok[0]] = m.group(1)
         ctx.check(R, "grammar/TupleInitialization", t == {"<==": "AssignOp::AssignConstraintSignal", "<--": "AssignOp::AssignSignal", "=": "AssignOp::AssignVar"}, str(t), GR)
     dec = nts.get("ParseDeclaration")
-    if dec is not None:
+    if dec is None:
+        ctx.missing(R, "grammar/ParseDeclaration")
+    else:
+        seen_d = set()
         for a in dec["alts"]:
             act = (a["action"] or "").replace(" ", "")
             syms = [s["text"] for s in a["symbols"]]
             if any("SignalSimpleSymbol" in s for s in syms):
+                seen_d.add("<--")
                 ctx.check(R, "grammar/declaration[signal<--]", "split_declaration_into_single_nodes(meta,xtype,symbols,AssignOp::AssignSignal)" in act, act[-120:], (GR, a["line"]))
             elif any("SignalSymbol" in s for s in syms):
+                seen_d.add("<==")
                 ctx.check(R, "grammar/declaration[signal<==]", "split_declaration_into_single_nodes(meta,xtype,symbols,AssignOp::AssignConstraintSignal)" in act, act[-120:], (GR, a["line"]))
+        for k_ in ("<--", "<==", "="):
+            if k_ == "=":
+                continue
+            ctx.check(R, "grammar/declaration[signal%s]/present" % k_, k_ in seen_d, "no declaration production with a `%s` initialiser: such declarations take another operator or do not parse" % k_, GR)
     for ntn, tok in (("SignalSimpleSymbol", "<--"), ("SignalConstraintSymbol", "<==")):
         nt = nts.get(ntn)
+        ctx.check(R, "grammar/%s/present" % ntn, nt is not None and bool(nt["alts"]), "nonterminal missing", GR)
         if nt is not None and nt["alts"]:
             toks = [s["value"] for s in nt["alts"][0]["symbols"] if s["kind"] == "str"]
             ctx.check(R, "grammar/%s/token" % ntn, toks == [tok], "tokens %s" % toks, (GR, nt["alts"][0]["line"]))
@@ -312,7 +322,59 @@ def rule_anchor(ctx):
         ctx.check(R, "anonymous/meta-not-shadowed", not shadows, "`meta` is rebound inside the arm")
 
 
+def rule_constraints(ctx):
+    R = "C08.5"
+    ctx.rule(R, "the secondary locations of a `signal assignment` finding are all constraints mentioning the signal: every `===` and every `<==` statement is recorded as a constraint over both of its sides, and the lookup scans both sides of every recorded constraint")
+    import alpha
+    import sgrep
+
+    vs = find_fn(SA, "visit_statement")
+    if vs is None:
+        return ctx.missing(R, "signal_assignments::visit_statement")
+    vs, _m = alpha.canon_fields(vs, [("meta", "Substitution", "meta"), ("var", "Substitution", "var"), ("op", "Substitution", "op"), ("rhe", "Substitution", "rhe"), ("meta", "ConstraintEquality", "meta"), ("lhe", "ConstraintEquality", "lhe"), ("rhe", "ConstraintEquality", "rhe")], [("stmt", "param", 0), ("signal_use", "param", 1)])
+    adds = list(method_calls(vs["body"], "add_constraint"))
+    lenv = sgrep.lets(vs["body"])
+    seen = set()
+    for a in adds:
+        conds = conditions_to(vs["body"], a) or []
+        cs = [fact_str(c).replace(" ", "") for c in conds]
+        args = a["args"]
+        in_sub = any("Substitution{" in c for c in cs)
+        in_eq = any("ConstraintEquality{" in c for c in cs)
+        if in_sub and len(args) == 3:
+            # `var <== rhe`: the constraint var === rhe
+            okop = any("AssignOp::AssignConstraintSignal" in c and not c.startswith("!") for c in cs) and len(conds) == 2
+            lhs = sgrep.match(sgrep.pattern("Expression::Variable { meta: meta, name: var }"), args[0], {}, lenv) or sgrep.match(sgrep.pattern("Variable { meta: meta, name: var }"), args[0], {}, lenv)
+            ok = okop and lhs and render(strip(args[1])) == "rhe" and render(strip(args[2])) == "meta"
+            seen.add("<==")
+            ctx.check(R, "visit_statement/constraint-assignment-recorded", bool(ok), "add_constraint(%s) under %s" % (render(args)[:120], cs), site(SA, a))
+        elif in_eq and len(args) == 3:
+            ok = len(conds) == 1 and [render(strip(x)) for x in args] == ["lhe", "rhe", "meta"]
+            seen.add("===")
+            ctx.check(R, "visit_statement/constraint-equality-recorded", ok, "add_constraint(%s) under %s" % (render(args)[:120], cs), site(SA, a))
+        else:
+            ctx.bad(R, "visit_statement/add_constraint/unexpected-site", "add_constraint under %s" % cs, site(SA, a))
+    for k_ in ("<==", "==="):
+        ctx.check(R, "visit_statement/records[%s]" % k_, k_ in seen, "no add_constraint for %s statements: the finding's secondary locations omit them" % k_, site(SA, vs))
+    ac = find_fn(SA, "add_constraint", "SignalUse")
+    if ac is not None:
+        pv = sgrep.params(ac)
+        ok = len(pv) == 3 and sgrep.has(ac["body"], "self.constraints.insert(Constraint::new(__m, __l, __r))", sgrep.lets(ac["body"]), {"__m": pv[2], "__l": pv[0], "__r": pv[1]}) and not [n for n in walk(ac["body"]) if n["k"] in ("If", "Match", "Return")]
+        ctx.check(R, "SignalUse::add_constraint/stores-both-sides", ok, render(ac["body"])[:160], site(SA, ac))
+    gc = find_fn(SA, "get_constraints", "SignalUse")
+    if gc is not None:
+        t = render(gc["body"]).replace(" ", "")
+        pv = sgrep.params(gc)
+        both = "lhe.signals_read()" in t and "rhe.signals_read()" in t and "chain(" in t
+        match_ = len(pv) == 2 and sgrep.has(gc["body"], "__u.name() == __s && __u.access() == __a", None, {"__s": pv[0], "__a": pv[1]})
+        ctx.check(R, "SignalUse::get_constraints/both-sides-same-signal-and-access", both and match_, t[:200], site(SA, gc))
+
+
 def run(ctx):
+    import c18
+
+    ctx.include("C08.6", "prerequisite shared with C18.1: the desugaring passes every expression of a statement on (through the matching remover or unchanged) on every path - a statement whose right-hand side is an anonymous component call keeps its `<--` inputs", c18.rule_flow)
+    rule_constraints(ctx)
     rule_operator_chain(ctx)
     rule_pass(ctx)
     rule_identity(ctx)
